@@ -355,6 +355,30 @@ func checkC04(r *core.Run) {
 			}
 		}
 	}
+	// a solidus before '>' does not close a non-void element for a tokenizer: the action is still in its content
+	voids := map[string]bool{"area": true, "base": true, "br": true, "col": true, "embed": true, "hr": true, "img": true, "input": true, "keygen": true, "link": true, "meta": true, "param": true, "source": true, "track": true, "wbr": true}
+	for _, e := range els {
+		le := strings.ToLower(e)
+		if voids[le] {
+			continue
+		}
+		for _, open := range []string{"<" + e + "/>", "<" + e + " />", "<" + e + " title=\"x\"/>", "<" + e + " title=x />"} {
+			cjobs = append(cjobs, cj{open + "{{$.P0}}</" + e + ">", tab.Class(le, ""), "self-closing-syntax"})
+		}
+	}
+	// else-if chains and nested conditionals over attribute names: every order of three alternatives
+	for _, e := range []string{"a", "img"} {
+		alts := []string{"title", "href", "src", "id"}
+		for _, x := range alts {
+			for _, y := range alts {
+				for _, z := range alts {
+					rv := combine(tab.Class(e, x), tab.Class(e, y), tab.Class(e, z))
+					cjobs = append(cjobs, cj{"<" + e + " {{if $.C}}" + x + "{{else if $.C2}}" + y + "{{else}}" + z + "{{end}}=\"{{$.P0}}\">", rv, "else-if-attribute-names"})
+					cjobs = append(cjobs, cj{"<" + e + " {{if $.C}}{{if $.C2}}" + x + "{{else}}" + y + "{{end}}{{else}}" + z + "{{end}}=\"{{$.P0}}\">", rv, "else-if-attribute-names"})
+				}
+			}
+		}
+	}
 	// names split over several text nodes by constructs that emit nothing: the value must be judged by the name a
 	// browser sees, or refused
 	splitters := []string{"{{$x := 1}}", "{{if $.C}}{{end}}", "{{/* c */}}", "{{with $.C}}{{end}}", "{{range $.L}}{{end}}"}
